@@ -96,10 +96,14 @@ class Check:
             raise AnalysisBroken(msg)
 
     # ---- finish -----------------------------------------------------------
-    def finish(self):
+    def finish(self, partial=None):
+        """partial: message of the rule that could not be completed AFTER another rule had already reported a
+        violation - the violation stands (it names a construct of the current tree), the incomplete rest is noted"""
+        if partial:
+            self.notes.append('analysis incomplete: %s' % partial)
         for rid, mn in self.rule_min.items():
             n = self.rule_counts.get(rid, [0, 0])[0]
-            if n < mn:
+            if n < mn and not partial:
                 raise AnalysisBroken('rule %s matched %d instances, expected at least %d '
                                      '(anchor moved or rule lost its sites)' % (rid, n, mn))
         wall = time.time() - self.t0
